@@ -1,5 +1,488 @@
-//! stream `conc2` (stub; replaced by its builder)
-pub fn generate(_seed: u64, _cases: usize, _out: &mut Vec<String>) {}
-pub fn run(_toks: &[&str]) -> String {
-    "bad-op".to_string()
+//! Stream `conc2` — the transaction manager and the edge operations of the property-graph store
+//! under a forced thread interleaving (C20).
+//!
+//!   conc2 tx <progs> <sched>
+//!       → res=<per thread answers>;… epoch=<current> min=<min_active_epoch> active=<n> txs=<state per id>
+//!   conc2 tx.inv <progs> <sched>   → ok | torn   (ids handed out distinct, epochs handed out distinct)
+//!       ops: b<v>.<iso> begin_with_isolation (iso 0 rc, 1 si, 2 ser), the id goes to variable v;
+//!            w<v>.<e> record_write, r<v>.<e> record_read, c<v> commit, a<v> abort (unset variable:
+//!            TxId::INVALID), g gc, e advance_epoch
+//!
+//!   conc2 edge <n0> <progs> <sched>
+//!       → res=<per thread answers>;… edges=<id><L|D>:<src>><dst>;… fwd=<node>:<dst>.<edge>,…;… bwd=… cons=<ok|torn>
+//!   conc2 edge.inv <n0> <progs> <sched>   → ok | torn
+//!       the store starts with n0 nodes; ops: c<src>.<dst> create_edge, d<e> delete_edge,
+//!            n<id> delete_node, x<id> delete_node_edges
+//!
+//!   progs = thread programs separated by `;`, ops by `,`; `-` = empty
+//!   sched = comma separated worker indices (`-` = empty); afterwards every worker runs to completion
+use crate::sched::run_schedule;
+use crate::util::*;
+use grafeo_common::types::{EdgeId, NodeId, TxId};
+use grafeo_common::utils::error::{Error, TransactionError};
+use grafeo_core::graph::Direction;
+use grafeo_core::graph::lpg::LpgStore;
+use grafeo_engine::transaction::{EntityId, IsolationLevel, TransactionManager, TxState};
+use std::collections::HashMap;
+use std::sync::{Arc, Mutex};
+
+// ------------------------------------------------------------------------------------ conc2 tx
+
+#[derive(Clone, Debug)]
+enum TOp {
+    Begin(usize, u8),
+    Write(usize, u64),
+    Read(usize, u64),
+    Commit(usize),
+    Abort(usize),
+    Gc,
+    Advance,
+}
+
+fn nums(t: &str) -> Option<Vec<u64>> {
+    t.split('.').map(|x| if x.is_empty() || x.starts_with('+') { None } else { x.parse().ok() }).collect()
+}
+
+fn parse_tprogs(s: &str) -> Option<Vec<Vec<TOp>>> {
+    s.split(';')
+        .map(|p| {
+            if p == "-" || p.is_empty() {
+                return Some(vec![]);
+            }
+            p.split(',')
+                .map(|o| {
+                    if o.is_empty() || !o.is_ascii() {
+                        return None;
+                    }
+                    let (k, rest) = o.split_at(1);
+                    match (k, rest) {
+                        ("g", "") => Some(TOp::Gc),
+                        ("e", "") => Some(TOp::Advance),
+                        ("b", _) => {
+                            let v = nums(rest)?;
+                            if v.len() == 2 && v[1] < 3 { Some(TOp::Begin(v[0] as usize, v[1] as u8)) } else { None }
+                        }
+                        ("w", _) => {
+                            let v = nums(rest)?;
+                            if v.len() == 2 { Some(TOp::Write(v[0] as usize, v[1])) } else { None }
+                        }
+                        ("r", _) => {
+                            let v = nums(rest)?;
+                            if v.len() == 2 { Some(TOp::Read(v[0] as usize, v[1])) } else { None }
+                        }
+                        ("c", _) => {
+                            let v = nums(rest)?;
+                            if v.len() == 1 { Some(TOp::Commit(v[0] as usize)) } else { None }
+                        }
+                        ("a", _) => {
+                            let v = nums(rest)?;
+                            if v.len() == 1 { Some(TOp::Abort(v[0] as usize)) } else { None }
+                        }
+                        _ => None,
+                    }
+                })
+                .collect()
+        })
+        .collect()
+}
+
+fn err_kind(e: &Error) -> &'static str {
+    match e {
+        Error::Transaction(TransactionError::InvalidState(_)) => "err:invalid",
+        Error::Transaction(TransactionError::WriteConflict(_)) => "err:conflict",
+        Error::Transaction(TransactionError::SerializationFailure(_)) => "err:serialization",
+        _ => "err:other",
+    }
+}
+
+fn run_tx(progs: Vec<Vec<TOp>>, sched: &[usize]) -> Result<(Vec<String>, String, bool), String> {
+    let mgr = Arc::new(TransactionManager::new());
+    let n = progs.len();
+    let results: Arc<Mutex<Vec<Vec<String>>>> = Arc::new(Mutex::new(vec![Vec::new(); n]));
+    let vars: Arc<Mutex<HashMap<usize, TxId>>> = Arc::new(Mutex::new(HashMap::new()));
+    // what the threads were handed: transaction ids, epochs
+    let handed: Arc<Mutex<(Vec<u64>, Vec<u64>)>> = Arc::new(Mutex::new((Vec::new(), Vec::new())));
+    let nbegin = progs.iter().flatten().filter(|o| matches!(o, TOp::Begin(..))).count() as u64;
+    let (m2, res2, vars2, handed2) = (Arc::clone(&mgr), Arc::clone(&results), Arc::clone(&vars), Arc::clone(&handed));
+    let progs = Arc::new(progs);
+    let body = move |tid: usize| {
+        for (i, op) in progs[tid].iter().enumerate() {
+            if i > 0 {
+                grafeo_common::verif::yield_point("conc.op");
+            }
+            let var = |v: &usize| vars2.lock().unwrap().get(v).copied().unwrap_or(TxId::INVALID);
+            let flag = |r: Result<(), Error>| (if r.is_ok() { "ok" } else { "err" }).to_string();
+            let r = match op {
+                TOp::Begin(v, iso) => {
+                    let lvl = match iso {
+                        0 => IsolationLevel::ReadCommitted,
+                        1 => IsolationLevel::SnapshotIsolation,
+                        _ => IsolationLevel::Serializable,
+                    };
+                    let t = m2.begin_with_isolation(lvl);
+                    vars2.lock().unwrap().insert(*v, t);
+                    handed2.lock().unwrap().0.push(t.as_u64());
+                    (t.as_u64() - 2).to_string()
+                }
+                TOp::Write(v, e) => flag(m2.record_write(var(v), EntityId::Node(NodeId::new(*e)))),
+                TOp::Read(v, e) => flag(m2.record_read(var(v), EntityId::Node(NodeId::new(*e)))),
+                TOp::Commit(v) => match m2.commit(var(v)) {
+                    Ok(e) => {
+                        handed2.lock().unwrap().1.push(e.as_u64());
+                        format!("ok:{}", e.as_u64())
+                    }
+                    Err(e) => err_kind(&e).to_string(),
+                },
+                TOp::Abort(v) => flag(m2.abort(var(v))),
+                TOp::Gc => m2.gc().to_string(),
+                TOp::Advance => {
+                    let e = m2.advance_epoch().as_u64();
+                    handed2.lock().unwrap().1.push(e);
+                    format!("e{}", e)
+                }
+            };
+            res2.lock().unwrap()[tid].push(r);
+        }
+    };
+    run_schedule(n, sched, body, || {})?;
+    let states: String = (0..nbegin)
+        .map(|i| match mgr.state(TxId::new(2 + i)) {
+            None => "-",
+            Some(TxState::Active) => "A",
+            Some(TxState::Committed) => "C",
+            Some(TxState::Aborted) => "X",
+        })
+        .collect();
+    let dump = format!(
+        "epoch={} min={} active={} txs={}",
+        mgr.current_epoch().as_u64(),
+        mgr.min_active_epoch().as_u64(),
+        mgr.active_count(),
+        if states.is_empty() { "-".to_string() } else { states }
+    );
+    let h = handed.lock().unwrap();
+    let distinct = |v: &Vec<u64>| {
+        let mut w = v.clone();
+        w.sort_unstable();
+        w.dedup();
+        w.len() == v.len()
+    };
+    let ok = distinct(&h.0) && distinct(&h.1);
+    let res = results.lock().unwrap().iter().map(|v| if v.is_empty() { "-".to_string() } else { v.join(",") }).collect();
+    Ok((res, dump, ok))
+}
+
+fn gen_tx(r: &mut Rng, out: &mut Vec<String>, stats: &mut HashMap<&'static str, u64>) {
+    let nthreads = r.range(2, 5) as usize;
+    let nent = r.range(1, 3);
+    let shared = r.chance(1, 3); // threads also act on each other's transactions
+    let ser = r.chance(1, 3);
+    let mut progs = Vec::new();
+    let mut steps = 0u64;
+    for t in 0..nthreads {
+        let mut ops: Vec<String> = Vec::new();
+        let mut bump = |k: &'static str| *stats.entry(k).or_insert(0) += 1;
+        let var = |r: &mut Rng| if shared && r.chance(1, 3) { r.below(nthreads as u64) as usize } else { t };
+        if r.chance(9, 10) {
+            let iso = if ser { 2 } else { r.below(3) };
+            ops.push(format!("b{}.{}", t, iso));
+            bump("begin");
+            steps += 2;
+        }
+        let nops = r.range(1, 5);
+        for _ in 0..nops {
+            steps += 1;
+            match r.below(20) {
+                0..=6 => {
+                    ops.push(format!("w{}.{}", var(r), r.below(nent)));
+                    bump("write");
+                }
+                7..=9 => {
+                    ops.push(format!("r{}.{}", var(r), r.below(nent)));
+                    bump("read");
+                }
+                10..=14 => {
+                    ops.push(format!("c{}", var(r)));
+                    bump("commit");
+                }
+                15 => {
+                    ops.push(format!("a{}", var(r)));
+                    bump("abort");
+                }
+                16 => {
+                    ops.push("g".to_string());
+                    bump("gc");
+                }
+                17 => {
+                    ops.push("e".to_string());
+                    bump("advance");
+                }
+                18 => {
+                    ops.push(format!("b{}.{}", var(r), r.below(3)));
+                    bump("begin");
+                    steps += 1;
+                }
+                _ => {
+                    ops.push(format!("c{}", nthreads + 3)); // a variable nobody sets
+                    bump("commit-unset");
+                }
+            }
+        }
+        if r.chance(4, 5) {
+            ops.push(format!("c{}", t));
+            bump("commit");
+            steps += 1;
+        }
+        progs.push(ops.join(","));
+    }
+    let sched: Vec<usize> = (0..r.below(steps + 2)).map(|_| r.below(nthreads as u64) as usize).collect();
+    let (p, s) = (progs.join(";"), list_arg(&sched));
+    out.push(format!("conc2 tx {} {}", p, s));
+    out.push(format!("conc2 tx.inv {} {}", p, s));
+}
+
+// ---------------------------------------------------------------------------------- conc2 edge
+
+#[derive(Clone, Debug)]
+enum EOp {
+    Create(u64, u64),
+    DelEdge(u64),
+    DelNode(u64),
+}
+
+fn parse_eprogs(s: &str) -> Option<Vec<Vec<EOp>>> {
+    s.split(';')
+        .map(|p| {
+            if p == "-" || p.is_empty() {
+                return Some(vec![]);
+            }
+            p.split(',')
+                .map(|o| {
+                    if o.is_empty() || !o.is_ascii() {
+                        return None;
+                    }
+                    let (k, rest) = o.split_at(1);
+                    let v = nums(rest)?;
+                    match (k, v.len()) {
+                        ("c", 2) => Some(EOp::Create(v[0], v[1])),
+                        ("d", 1) => Some(EOp::DelEdge(v[0])),
+                        ("n", 1) => Some(EOp::DelNode(v[0])),
+                        _ => None,
+                    }
+                })
+                .collect()
+        })
+        .collect()
+}
+
+fn edge_dump(store: &LpgStore, n0: u64, max_edge: u64) -> (String, bool) {
+    let mut live: Vec<(u64, u64, u64)> = Vec::new();
+    for id in 0..max_edge {
+        if let Some(e) = store.get_edge(EdgeId::new(id)) {
+            live.push((id, e.src.as_u64(), e.dst.as_u64()));
+        }
+    }
+    let mut ok = true;
+    let adj = |dir: Direction| -> Vec<Vec<(u64, u64)>> {
+        // one id past the initial nodes: programs also name a node that never existed
+        (0..=n0)
+            .map(|n| {
+                let mut v: Vec<(u64, u64)> = store.edges_from(NodeId::new(n), dir).map(|(o, e)| (o.as_u64(), e.as_u64())).collect();
+                v.sort_unstable_by_key(|p| (p.1, p.0));
+                v
+            })
+            .collect()
+    };
+    let (fwd, bwd) = (adj(Direction::Outgoing), adj(Direction::Incoming));
+    for (id, s, d) in live.iter() {
+        let cf = fwd.get(*s as usize).map_or(0, |l| l.iter().filter(|p| **p == (*d, *id)).count());
+        let cb = bwd.get(*d as usize).map_or(0, |l| l.iter().filter(|p| **p == (*s, *id)).count());
+        if cf != 1 || cb != 1 {
+            ok = false;
+        }
+    }
+    for (n, l) in fwd.iter().enumerate() {
+        for (o, e) in l {
+            if !live.contains(&(*e, n as u64, *o)) {
+                ok = false;
+            }
+        }
+    }
+    for (n, l) in bwd.iter().enumerate() {
+        for (o, e) in l {
+            if !live.contains(&(*e, *o, n as u64)) {
+                ok = false;
+            }
+        }
+    }
+    let show = |a: &Vec<Vec<(u64, u64)>>| {
+        a.iter().enumerate().map(|(n, l)| format!("{}:{}", n, l.iter().map(|(o, e)| format!("{}.{}", o, e)).collect::<Vec<_>>().join(","))).collect::<Vec<_>>().join(";")
+    };
+    let es = live.iter().map(|(i, s, d)| format!("{}:{}>{}", i, s, d)).collect::<Vec<_>>().join(";");
+    let mut nodes: Vec<u64> = store.node_ids().iter().map(|n| n.as_u64()).filter(|n| *n < n0).collect();
+    nodes.sort_unstable();
+    (
+        format!(
+            "edges={} fwd={} bwd={} nodes={}",
+            if es.is_empty() { "-".to_string() } else { es },
+            show(&fwd),
+            show(&bwd),
+            if nodes.is_empty() { "-".to_string() } else { join(&nodes) }
+        ),
+        ok,
+    )
+}
+
+fn run_edge(n0: u64, progs: Vec<Vec<EOp>>, sched: &[usize]) -> Result<(Vec<String>, String, bool), String> {
+    let store = Arc::new(LpgStore::new());
+    for _ in 0..n0 {
+        store.create_node(&[]);
+    }
+    let n = progs.len();
+    let max_edge = progs.iter().flatten().filter(|o| matches!(o, EOp::Create(..))).count() as u64;
+    let results: Arc<Mutex<Vec<Vec<String>>>> = Arc::new(Mutex::new(vec![Vec::new(); n]));
+    let (st2, res2) = (Arc::clone(&store), Arc::clone(&results));
+    let progs = Arc::new(progs);
+    let body = move |tid: usize| {
+        for (i, op) in progs[tid].iter().enumerate() {
+            if i > 0 {
+                grafeo_common::verif::yield_point("conc.op");
+            }
+            let r = match op {
+                EOp::Create(s, d) => st2.create_edge(NodeId::new(*s), NodeId::new(*d), "T").as_u64().to_string(),
+                EOp::DelEdge(e) => (if st2.delete_edge(EdgeId::new(*e)) { "1" } else { "0" }).to_string(),
+                EOp::DelNode(x) => (if st2.delete_node(NodeId::new(*x)) { "1" } else { "0" }).to_string(),
+            };
+            res2.lock().unwrap()[tid].push(r);
+        }
+    };
+    run_schedule(n, sched, body, || {})?;
+    let (dump, ok) = edge_dump(&store, n0, max_edge);
+    let res = results.lock().unwrap().iter().map(|v| if v.is_empty() { "-".to_string() } else { v.join(",") }).collect();
+    Ok((res, dump, ok))
+}
+
+fn gen_edge(r: &mut Rng, out: &mut Vec<String>, stats: &mut HashMap<&'static str, u64>) {
+    let n0 = r.range(1, 4);
+    let nthreads = r.range(2, 5) as usize;
+    let mut progs = Vec::new();
+    let mut steps = 0u64;
+    let mut ncreate = 0u64;
+    for _ in 0..nthreads {
+        let nops = r.range(1, 4);
+        let mut ops = Vec::new();
+        for _ in 0..nops {
+            let mut bump = |k: &'static str| *stats.entry(k).or_insert(0) += 1;
+            match r.below(10) {
+                0..=4 => {
+                    // few endpoints: shared adjacency lists; now and then a node that does not exist
+                    let s = if r.chance(1, 12) { n0 } else { r.below(n0) };
+                    let d = if r.chance(1, 4) { s.min(n0 - 1) } else { r.below(n0) };
+                    ops.push(format!("c{}.{}", s, d));
+                    ncreate += 1;
+                    steps += 4;
+                    bump(if s == d { "create-loop" } else { "create" });
+                }
+                5..=7 => {
+                    // an id some create of this program hands out (maybe one still under creation), or none
+                    ops.push(format!("d{}", r.below(ncreate + 2)));
+                    steps += 5;
+                    bump("delete_edge");
+                }
+                _ => {
+                    ops.push(format!("n{}", r.below(n0 + 1)));
+                    steps += 2;
+                    bump("delete_node");
+                }
+            }
+        }
+        progs.push(ops.join(","));
+    }
+    let sched: Vec<usize> = (0..r.below(steps + 2)).map(|_| r.below(nthreads as u64) as usize).collect();
+    let (p, s) = (progs.join(";"), list_arg(&sched));
+    out.push(format!("conc2 edge {} {} {}", n0, p, s));
+    out.push(format!("conc2 edge.inv {} {} {}", n0, p, s));
+}
+
+pub fn generate(seed: u64, cases: usize, out: &mut Vec<String>) {
+    let mut r = Rng::new(seed ^ 0x636f6e6332);
+    let mut stats: HashMap<&'static str, u64> = HashMap::new();
+    out.push(format!("# case boundary seed {}", seed));
+    for l in [
+        "conc2 tx - -",
+        "conc2 tx b0.1;b1.1 0,1,1,0",
+        "conc2 tx b0.1,w0.7,c0,e;b1.1,w1.7,c1;b2.1,w2.7,c2 0,1,0,1,0,1,0,1",
+        "conc2 tx b0.1,w0.7,c0;w0.7,c0,a0 0,1,0,0,1,0,1",
+        "conc2 tx b0.2,r0.1,w0.2,c0;b1.2,r1.2,w1.1,c1 0,1,0,1,0,1,0,1,1,0",
+        "conc2 tx b0.1,c0,g;b1.1,g,c1;e,e,g 0,2,1,0,1,2,0,1,2",
+        "conc2 tx.inv b0.1,c0;b1.1,c1;e,e 0,1,2,0,1,2,0,1",
+        "conc2 tx w5.1,c5,a5,r5.0;g,e 0,1,0,1",
+        "conc2 edge 0 - -",
+        "conc2 edge 2 c0.1;d0 0,0,1,1,1,1,1",
+        "conc2 edge.inv 2 c0.1;d0 0,0,1,1,1,1,1",
+        "conc2 edge 2 c0.1;d0 0,0,0,1,1,1,1,1",
+        "conc2 edge 2 c0.1,c0.1;d1 0,0,0,0,0,0,1,1,1,1,1",
+        "conc2 edge 2 c0.1;c1.0,n0,d0 0,1,0,1",
+        "conc2 edge 1 c0.0,d0;d0,c0.0 0,1,0,1,0,1,0,1,0,1",
+        "conc2 edge 2 c0.1;n0,n0;n1,d0 0,1,2,0,1,2,0,1,2",
+        "conc2 edge.inv 3 c0.1,c1.2;c2.0,d0;d1,d2 0,1,2,0,1,2,0,1,2,0,1,2",
+    ] {
+        out.push(l.to_string());
+    }
+    for c in 0..cases {
+        out.push(format!("# case {} seed {}", c, seed));
+        gen_tx(&mut r, out, &mut stats);
+        gen_edge(&mut r, out, &mut stats);
+    }
+    if std::env::var("VH_STATS").is_ok() {
+        let mut ks: Vec<_> = stats.iter().collect();
+        ks.sort();
+        eprintln!("conc2 op distribution: {:?}", ks);
+    }
+}
+
+pub fn run(args: &[&str]) -> String {
+    let a: Vec<String> = args.iter().map(|s| s.to_string()).collect();
+    guarded(move || {
+        let a: Vec<&str> = a.iter().map(|s| s.as_str()).collect();
+        match a.as_slice() {
+            [kind @ ("tx" | "tx.inv"), progs, sched] => {
+                let (Some(progs), Some(sched)) = (parse_tprogs(progs), parse_u64s(sched)) else {
+                    return "bad-op".to_string();
+                };
+                let sched: Vec<usize> = sched.iter().map(|x| *x as usize).collect();
+                match run_tx(progs, &sched) {
+                    Err(e) => format!("stuck:{}", e.replace(' ', "_")),
+                    Ok((res, dump, ok)) => {
+                        if *kind == "tx" {
+                            format!("res={} {}", res.join(";"), dump)
+                        } else if ok {
+                            "ok".to_string()
+                        } else {
+                            "torn".to_string()
+                        }
+                    }
+                }
+            }
+            [kind @ ("edge" | "edge.inv"), n0, progs, sched] => {
+                let (Ok(n0), Some(progs), Some(sched)) = (n0.parse::<u64>(), parse_eprogs(progs), parse_u64s(sched)) else {
+                    return "bad-op".to_string();
+                };
+                let sched: Vec<usize> = sched.iter().map(|x| *x as usize).collect();
+                match run_edge(n0, progs, &sched) {
+                    Err(e) => format!("stuck:{}", e.replace(' ', "_")),
+                    Ok((res, dump, ok)) => {
+                        if *kind == "edge" {
+                            format!("res={} {}", res.join(";"), dump)
+                        } else if ok {
+                            "ok".to_string()
+                        } else {
+                            "torn".to_string()
+                        }
+                    }
+                }
+            }
+            _ => "bad-op".into(),
+        }
+    })
 }
